@@ -50,3 +50,8 @@ Proof. intros. unfold gen_commit_pick. lia. Qed.
 (* ... and only commits an entry of the leader's current term *)
 Lemma gen_commit_current_term : forall et cur, gen_commit_term_ok et cur = true -> et = cur.
 Proof. intros et cur. unfold gen_commit_term_ok. intros H. apply N.eqb_eq. exact H. Qed.
+
+(* the leader sends log entries only together with a prev entry it can still name (never prev 0 with entries that
+   do not start the log): what LogMatch.entries_for_ok and the whole replication argument rest on *)
+Lemma gen_entries_with_known_prev : gen_entries_need_prev = true.
+Proof. reflexivity. Qed.
